@@ -16,7 +16,9 @@ A case is a call *history*: 1-3 successive rounds of the consumers on the SAME i
 object, the same list) with different selectors (narrow then wide, wide then narrow, repeated).  The outputs of
 EVERY round are parsed back to numbers (compared at the precision they are printed with) and every row is looked up
 *by model name* in the original table; the expected selection of every round is computed from a snapshot of the
-ORIGINAL fit results taken before the first call.  Pure print-layout differences (header tokens, placeholders,
+ORIGINAL fit results taken before the first call.  Between rounds `parameters.fits` of the same model directory may
+be rewritten in place (new values, new row order, sometimes one more column): every later output must show the
+file as it is on disk at that call.  Pure print-layout differences (header tokens, placeholders,
 token counts) are reported as model/implementation disagreements, not as property violations.
 
 Compared refusals (one round): an `additional` key that is already a table column (the code raises "already
@@ -64,7 +66,7 @@ REQUIRED_BRANCHES = ['write_parameters', 'write_parameter_ranges', 'extract_para
                      'history_1', 'history_2', 'history_3', 'narrow_then_wide_single', 'narrow_then_wide_list',
                      'narrow_then_wide_file', 'wide_then_narrow', 'repeated_selector',
                      'extra_table_rows', 'param_nan', 'param_inf', 'fit_nan', 'fit_inf', 'range_all_nan',
-                     'refuse_dup_column', 'refuse_missing_key', 'missing_key_not_selected', 'refuse_no_model_name']
+                     'parameters_rewritten', 'rewrite_added_column', 'refuse_dup_column', 'refuse_missing_key', 'missing_key_not_selected', 'refuse_no_model_name']
 ASSUMPTIONS = ['text outputs are parsed back to numbers and compared at the precision they are printed with '
                '(%10.3e / %10.3f / %11.3e); layout-only differences are not property violations',
                'selector thresholds are placed between attained values (C05 owns the selection rule itself)',
@@ -220,7 +222,7 @@ def gen_case(rng, directed=None, table_perm=None, n=None):
     # the two parameter plots: on finite columns only
     finite_cols = [c for c in cols if all(not isinstance(v, str) for v in cols[c])]
     plots = None
-    if finite_cols and directed.get('plots', rng.random() < 0.4):
+    if finite_cols and directed.get('plots', rng.random() < 0.25):
         p1 = rng.choice(finite_cols)
         allv = [cols[p1][i] for i in range(n)] + [e[1][p1] for e in extra]
         plots = dict(p1=p1, bins=rng.choice([4, 10, 30]), log_x=bool(min(allv) > 0 and rng.random() < 0.5),
@@ -243,7 +245,26 @@ def gen_case(rng, directed=None, table_perm=None, n=None):
             k0 = rng.choice(list(additional))
             miss = rng.choice(names)
             additional[k0] = {k: v for k, v in additional[k0].items() if k != miss}
+    # parameters.fits rewritten in place between rounds: new values, new row order, sometimes one more column
+    rewrites = {}
+    if more and not defect and directed.get('rewrite', rng.random() < 0.5):
+        cur_cols, cur_table, cur_extra = cols, table_names, extra
+        for ri in range(1, len(more) + 1):
+            if ri > 1 and rng.random() < 0.5:
+                continue
+            ncols_ = {c: distinct_values(rng, n, signed=not (plots and plots['log_x'] and c == plots['p1'])) for c in cur_cols}
+            nextra_ = [[e[0], {c: nice(rng, 1e-3, 1e5, 3) for c in cur_cols}] for e in cur_extra]
+            spare = [c for c in COLNAMES if c not in ncols_]
+            if spare and rng.random() < 0.35:
+                ncols_[spare[0]] = distinct_values(rng, n)
+                for e in nextra_:
+                    e[1][spare[0]] = nice(rng, 1e-3, 1e5, 3)
+            ntable = cur_table[:]
+            rng.shuffle(ntable)
+            rewrites[str(ri)] = dict(cols=ncols_, table=ntable, extra=nextra_)
+            cur_cols, cur_table, cur_extra = ncols_, ntable, nextra_
     return dict(names=names, conv=conv, table=table_names, cols=cols, extra=extra, additional=additional, wavs=wavs,
+                rewrites=rewrites,
                 models=models, mode=mode, form=form, sources=sources, sel=kind, target=target, more=more, extract=ex,
                 header=rng.random() < 0.7, suffix=rng.choice([None, '.txt']), as_tuple=rng.random() < 0.3,
                 plots=plots, defect=defect)
@@ -265,7 +286,9 @@ DIRECTED = [
 # call histories on the same input: narrow -> wide, wide -> narrow, repeated, three rounds; every input form
 for _form in ('single', 'list', 'file'):
     DIRECTED += [
-        dict(n=6, form=_form, mode='direct', sel='N', target=1, more=[['A', 6]], nadd=1, plots=True, special=False, pad=True),
+        dict(n=6, form=_form, mode='direct', sel='N', target=1, more=[['A', 6]], nadd=1, plots=True, special=False, pad=True, rewrite=False),
+        dict(n=6, form=_form, mode='direct', sel='A', target=6, more=[['A', 6]], nadd=1, plots=True, special=False, pad=True, rewrite=True),
+        dict(n=5, form=_form, mode='fitter', sel='N', target=3, more=[['N', 3], ['A', 5]], ncols=2, special=False, rewrite=True),
         dict(n=5, form=_form, mode='fitter', sel='C', target=2, more=[['N', 4]], ncols=2),
         dict(n=4, form=_form, mode='direct', sel='F', target=0, more=[['D', 3]], plots=True, special=False, pad=True),
         dict(n=6, form=_form, mode='fitter', sel='A', target=6, more=[['N', 2]], nadd=2),
@@ -304,6 +327,17 @@ def gen_cases(seed, tier):
 
 # ----------------------------------------------------------------------------- real side
 
+def view(case, rw):
+    """the case as it stands once parameters.fits has been rewritten with `rw` (cols / table / extra replaced)"""
+    return dict(case, cols=rw['cols'], table=rw['table'], extra=rw['extra'])
+
+
+def write_table(case, md):
+    tv = table_values(case)
+    cols = list(case['cols'])
+    pk.write_parameters(md, case['table'], {c: [tv[t.strip()][j] for t in case['table']] for j, c in enumerate(cols)})
+
+
 def table_values(case):
     """the original parameter table, by (stripped) model name: name -> [value per column]"""
     cols = list(case['cols'])
@@ -325,9 +359,7 @@ def build(case, d):
         fn = 'F%d' % j
         fnames.append(fn)
         pk.write_convolved(md, fn, w, case['conv'], [[case['models'][i][j]] for i in idx], [[0.] for _ in idx])
-    tv = table_values(case)
-    cols = list(case['cols'])
-    pk.write_parameters(md, case['table'], {c: [tv[t.strip()][j] for t in case['table']] for j, c in enumerate(cols)})
+    write_table(case, md)
     ext = pk.make_extinction(EXT_W, EXT_CHI)
     infos = []
     if case['mode'] == 'fitter':
@@ -650,7 +682,16 @@ def impl_side(case, d):
     fails, layout = [], []
     rs = rounds(case)
     br.add('history_%d' % len(rs))
+    orig = case
     for ri, (kind, tgt) in enumerate(rs):
+        rw = orig.get('rewrites', {}).get(str(ri))
+        if rw:
+            # the user regenerates the parameter file of the same model directory between two calls
+            br.add('parameters_rewritten')
+            if len(rw['cols']) > len(case['cols']):
+                br.add('rewrite_added_column')
+            case = view(case, rw)
+            write_table(case, md)
         sel = make_selector(case, ranked, kind, tgt)
         br.add('sel_' + kind)
         sd = os.path.join(d, 'round%d' % ri)
@@ -666,7 +707,8 @@ def impl_side(case, d):
         f, lay, ks, rel_ = check_round(case, ranked, sel, out, br)
         relaxed += rel_
         hist = ' -> '.join(repr(st['sel']) for st in steps) or None
-        pre = 'round %d of %d on the same %s (earlier selectors: %s): ' % (ri + 1, len(rs), case['form'], hist)
+        pre = 'round %d of %d on the same %s (earlier selectors: %s%s): ' % (
+            ri + 1, len(rs), case['form'], hist, '; parameters.fits rewritten before this round' if rw else '')
         fails += [pre + x for x in f]
         layout += [pre + x for x in lay]
         if ks is None:
@@ -679,7 +721,7 @@ def impl_side(case, d):
                 br.add('wide_then_narrow')
             if list(steps[-1]['sel']) == list(sel):
                 br.add('repeated_selector')
-        steps.append(dict(sel=sel, ks=ks, out=out, ranked=ranked))
+        steps.append(dict(sel=sel, ks=ks, out=out, ranked=ranked, case=case))
     return fails, layout, dict(ranked=ranked, steps=steps), br, relaxed
 
 
@@ -969,13 +1011,13 @@ def efval(tok):
 def model_side(case, obs):
     """for each round, for each source: (table positions, names, extras, ranges per printed group, n_data, n_fits),
     always from the original results"""
-    return [model_round(case, st) for st in obs['steps']]
+    return [model_round(st.get('case', case), st) for st in obs['steps']]
 
 
 def compare_model(case, obs, mod):
     dis = []
     for ri, (st, m) in enumerate(zip(obs['steps'], mod)):
-        dis += ['round %d (selector %r): %s' % (ri + 1, st['sel'], x) for x in compare_round(case, st, m)]
+        dis += ['round %d (selector %r): %s' % (ri + 1, st['sel'], x) for x in compare_round(st.get('case', case), st, m)]
     return dis
 
 
